@@ -19,9 +19,9 @@ for id in $ids; do
       (cd $wt && go test -vet=off -count=1 ./... >/dev/null 2>&1) && res="$res suite=pass" || res="$res suite=FAIL"
       cp $d/zz_seed_demo_test.go $wt/$demo
       pkg=./$(dirname $demo)
-      (cd $wt && go test -vet=off -count=1 -run 'TestSeedDemo' $pkg >/dev/null 2>&1) && res="$res demo_with=PASS(!)" || res="$res demo_with=fail"
+      (cd $wt && go test -vet=off -count=1 -run 'TestSeedDemo|TestSeeded|TestZZSeed' $pkg >/dev/null 2>&1) && res="$res demo_with=PASS(!)" || res="$res demo_with=fail"
       git -C $wt apply -R $d/patch.diff
-      (cd $wt && go test -vet=off -count=1 -run 'TestSeedDemo' $pkg >/dev/null 2>&1) && res="$res demo_without=pass" || res="$res demo_without=FAIL(!)"
+      (cd $wt && go test -vet=off -count=1 -run 'TestSeedDemo|TestSeeded|TestZZSeed' $pkg >/dev/null 2>&1) && res="$res demo_without=pass" || res="$res demo_without=FAIL(!)"
     fi
     git -C /repo worktree remove --force $wt
     echo "$id: $res"
